@@ -228,7 +228,7 @@ def check(w, case):
             if case.get('pir'):
                 ca = min(case['cbs'], Lc_a + case['cir'] * (h - lastc) / 8.0)
                 cb = min(case['cbs'], Lc_b + case['cir'] * (h - lastc) / 8.0)
-                lastc = tau
+                lastc = h            # the committed bucket keeps filling while a packet waits for peak tokens
                 if waited:
                     want = 'red'
                     Lc_a, Lc_b = ca, cb
